@@ -58,7 +58,8 @@ class Log:
             cur = asyncio.current_task()
         except RuntimeError:
             cur = None
-        e = {"kind": kind, "t": CLOCK.now_us(), "tq": getattr(cur, "qualname", None), "tv": getattr(cur, "vid", None), **kw}
+        e = {"kind": kind, "t": CLOCK.now_us(), "tq": getattr(cur, "qualname", None), "tv": getattr(cur, "vid", None),
+             "it": getattr(CLOCK.loop, "iteration", None), **kw}
         self.events.append(e)
         return e
 
@@ -87,7 +88,9 @@ class RecConsumer(_InMemoryConsumer):
 
     async def finish(self):
         self.broker.log.add("consumer_finish", queue=self.queue_name, consumer=id(self))
-        return await super().finish()
+        res = await super().finish()
+        self.broker.log.add("consumer_finish_done", queue=self.queue_name, consumer=id(self))
+        return res
 
     async def pause(self):
         self.broker.log.add("pause", queue=self.queue_name)
